@@ -350,13 +350,13 @@ Theorem C02_dictid_set_one_per_id :
 Proof. exact reachable_uniq. Qed.
 Print Assumptions C02_dictid_set_one_per_id.
 
-(* ZSTD_d_refMultipleDDicts, streaming: with a current dictionary x, a frame naming the ID of a referenced DDict f is decoded from f,
-   accepted, and f becomes the current dictionary (for indefinite use) *)
+(* ZSTD_d_refMultipleDDicts, streaming: with a current dictionary x that is a REFERENCED DDict (not the context's own copy), a frame
+   naming the ID of a referenced DDict f is decoded from f, accepted, and f becomes the current dictionary (for indefinite use) *)
 Theorem C02_dictid_multi_selects :
   forall (D : Type) (did : D -> N) (s : ds D) (id : N) (f x : D),
   ds_mdd D s = true -> uniq D did (ds_set D s) -> In f (ds_set D s) -> did f = id -> id <> 0 ->
-  ds_dict D s = Some x -> ds_uses D s = UseIndef ->
-  frame_step D did s id = (with_loaded D (with_dict D s (Some f) UseIndef) id, (Some f, id, true)).
+  ds_dict D s = Some x -> ds_uses D s = UseIndef -> ds_local D s = false ->
+  frame_step D did s id = (with_loaded D (with_dict D s (Some f) UseIndef false) id, (Some f, id, true)).
 Proof. exact multi_ddict_selects. Qed.
 Print Assumptions C02_dictid_multi_selects.
 
@@ -369,10 +369,34 @@ Theorem C02_dictid_multi_keeps :
 Proof. exact multi_ddict_keeps. Qed.
 Print Assumptions C02_dictid_multi_keeps.
 
+(* a dictionary loaded INTO the context (ZSTD_DCtx_loadDictionary and variants) is never replaced by the selection: every streamed frame
+   is decoded from it, whatever ID it names and whatever DDicts are referenced (the code after fix d0ddbff) *)
+Theorem C02_dictid_loaded_dict_kept :
+  forall (D : Type) (did : D -> N) (s : ds D) (id : N) (x : D),
+  ds_local D s = true -> ds_dict D s = Some x -> ds_uses D s = UseIndef ->
+  frame_step D did s id = (with_loaded D s (did x), (Some x, id, id_ok (did x) id)).
+Proof. exact loaded_dict_kept. Qed.
+Print Assumptions C02_dictid_loaded_dict_kept.
+
+(* a pending single-use prefix (ZSTD_DCtx_refPrefix): the next streamed frame is decoded from it; when the frame is accepted the prefix is
+   used up, when it is refused (it names a dictionary the prefix is not) the prefix STAYS pending and only dctx->dictID has changed
+   (the code after fix b15fdb6: the prefix is marked used once the frame start has succeeded) *)
+Theorem C02_dictid_prefix_frame :
+  forall (D : Type) (did : D -> N) (s : ds D) (id : N),
+  ds_uses D s = UseOnce -> ds_local D s = true ->
+  frame_step D did s id =
+    (if id_ok (id_of D did (ds_dict D s)) id
+     then with_dict D (with_loaded D s (id_of D did (ds_dict D s))) (ds_dict D s) DontUse true
+     else with_loaded D s (id_of D did (ds_dict D s)),
+     (ds_dict D s, id, id_ok (id_of D did (ds_dict D s)) id)).
+Proof. exact prefix_frame. Qed.
+Print Assumptions C02_dictid_prefix_frame.
+
 (* streaming = single call, at the level of dictionary selection: from EVERY context state without a pending single-use prefix
    (its documented meaning differs: next frame / whole call), for EVERY non-empty list of frames (naming any IDs), feeding them one
    after the other to ZSTD_decompressStream and handing them all to one ZSTD_decompressDCtx call decode every frame from the same
    dictionary, accept / refuse the same frames (both stop at the first dictionary_wrong) and leave the same selection state.
+   The model mirrors the guard ZSTD_DCtx_selectionApplies shared by both entry points since 3de6278.
    Before fix a891479 this needed the extra hypothesis "no used-up prefix has left its pointer behind" (finding
    C02-dstream-stale-prefix-pointer-selects-ddict; refutation of the old code: Example stale_selection_differs in DictIdProofs.v) *)
 Theorem C02_dictid_stream_eq_oneshot :
